@@ -89,12 +89,12 @@ def m_stream_read(ex, st, obj, args, kwargs, node):
         if ex.feasible(st.pc, pos + c > L):
             st.assume(pos + c > L)
             st.ghost[common.pos_key(obj)] = pos + rest
-            out.append((st, VSeq(rest, lambda i, pos=pos: VInt(SB(s, pos + i)), "byte", True)))
+            out.append((st, VSeq(rest, lambda i, pos=pos: VInt(SB(s, pos + i)), "byte", True, tag=("stream-bytes", s, pos, rest))))
         return out
     nt = ops.int_term(n)
     ln = z3.If(z3.Or(nt < 0, nt > rest), rest, nt)
     st.ghost[common.pos_key(obj)] = pos + ln
-    return [(st, VSeq(ln, lambda i, pos=pos: VInt(SB(s, pos + i)), "byte", True))]
+    return [(st, VSeq(ln, lambda i, pos=pos: VInt(SB(s, pos + i)), "byte", True, tag=("stream-bytes", s, pos, ln)))]
 
 
 def m_struct_unpack(ex, st, args, kwargs, node):
@@ -413,9 +413,22 @@ def byte_contracts():
             lc.st.bind(res, VSeq(i, lambda j: VBool(BITF(s, p0, j)), "bool"))
         return z3.And(conj)
 
+    def p_check_defined():
+        """False | True; a call that omits the argument gets the default of the REAL signature (only when that is a bool literal)"""
+        m = p_alts(p_const(False), p_const(True))
+        try:
+            fn = loader.module(SEVEN).functions.get("SevenZipReader._read_boolean_vector")
+            names = [a.arg for a in fn.args.args]
+            dflt = dict(zip(names[len(names) - len(fn.args.defaults):], fn.args.defaults)).get("check_defined")
+            if isinstance(dflt, ast.Constant) and isinstance(dflt.value, bool):
+                m.default = lambda ex, st, v=dflt.value: VBool(v)
+        except Exception:  # noqa  no default: a call that omits the argument is out of subset, as before
+            pass
+        return m
+
     out.append(FnContract(
         target=f"{RD}._read_boolean_vector",
-        params=[("self", p_reader()), ("count", p_int(0)), ("check_defined", p_alts(p_const(False), p_const(True)))],
+        params=[("self", p_reader()), ("count", p_int(0)), ("check_defined", p_check_defined())],
         requires=lambda c: z3.And(req_stream(c), bv_n(c) >= 0), frame=frame_stream, returns=bv_returns,
         ensures=[("consumes-exactly-the-vector", lambda c: pos1(c) == pos0(c) + bv_need(c)),
                  ("returns-only-if-enough-bytes", lambda c: z3.Not(bv_short(c))),
@@ -3717,6 +3730,52 @@ def spec_end_header(s, p):
     return slots, sx, z3.If(c_mh, MEND(sx, a), a), z3.Or(fails)
 
 
+CRCF = z3.Function("crc32_of_stream_bytes", Stream, I, I, z3.BitVecSort(32))     # zlib.crc32(s[lo : lo + n]): uninterpreted (Trust: zlib)
+SUBS = z3.Function("stream_over_bytes", Stream, I, I, Stream)                    # io.BytesIO(s[lo : lo + n]): a stream over exactly those bytes
+
+
+def stream_bytes_of(v):
+    return v.tag[1:] if isinstance(v, VSeq) and isinstance(v.tag, tuple) and len(v.tag) == 4 and v.tag[0] == "stream-bytes" else None
+
+
+def install_header(reg):
+    """ASSUMED models used by _parse_header: zlib.crc32 over bytes read from a stream = an uninterpreted function of (stream, offset,
+    length); io.BytesIO over such bytes = a stream of that length at position 0 (named by where its bytes come from)"""
+    prev_bio = reg.ext_models.get("io.BytesIO")
+
+    def m_crc32(ex, st, args, kwargs, node):
+        sb = stream_bytes_of(args[0]) if len(args) == 1 and not kwargs else None
+        if sb is None:
+            return ex.havoc_call(st, "zlib.crc32", args, node)
+        return [(st, VInt(CRCF(*sb)))]
+
+    def m_bytesio(ex, st, args, kwargs, node):
+        sb = stream_bytes_of(args[0]) if len(args) == 1 and not kwargs else None
+        if sb is None:
+            return prev_bio(ex, st, args, kwargs, node) if prev_bio is not None else ex.havoc_call(st, "io.BytesIO", args, node)
+        ns = VExt("Stream7z", SUBS(*sb))
+        st.ghost[common.pos_key(ns)] = z3.IntVal(0)
+        st.assume(SLEN(ns.t) == sb[2])
+        return [(st, ns)]
+    reg.ext_models["zlib.crc32"] = m_crc32
+    reg.ext_models["io.BytesIO"] = m_bytesio
+
+
+def spec_start_header(s):
+    """SignatureHeader ::= '7z' BC AF 27 1C  Major=0 Minor<=4  StartHeaderCRC:UINT32  NextHeaderOffset:UINT64 NextHeaderSize:UINT64
+    NextHeaderCRC:UINT32 (7zFormat.txt; 32 bytes; StartHeaderCRC covers bytes 12..31; the next header = the `size` bytes at 32 + offset,
+    inside the file (vacuous for size 0), covered by NextHeaderCRC)  -> (stream of the next header, refused)"""
+    L = SLEN(s)
+    off, size = z3.BV2Int(le(s, z3.IntVal(12), 8), False), z3.BV2Int(le(s, z3.IntVal(20), 8), False)
+    hs = SUBS(s, 32 + off, size)
+    _E, EHFAIL = sub_end("_parse_end_header")
+    bad = [L < 32, z3.Or([SB(s, z3.IntVal(i)) != bv(b_) for i, b_ in enumerate(b"7z\xbc\xaf\x27\x1c")]),
+           SB(s, z3.IntVal(6)) != bv(0), z3.UGT(SB(s, z3.IntVal(7)), bv(4)),
+           CRCF(s, z3.IntVal(12), z3.IntVal(20)) != le(s, z3.IntVal(8), 4),
+           z3.And(size > 0, 32 + off + size > L), CRCF(s, 32 + off, size) != le(s, z3.IntVal(28), 4), EHFAIL(hs, z3.IntVal(0))]
+    return hs, z3.Or(bad)
+
+
 def dispatch_contracts():
     out = []
 
@@ -3791,12 +3850,38 @@ def dispatch_contracts():
         return spec_end_header(S0(c), pos0(c))
     out.append(FnContract(
         target=f"{RD}._parse_end_header", params=[("self", p_reader())], requires=req_stream, modifies=("self",),
+        frame=sub_frame("_parse_end_header"),
         ensures=[("encoded-header-decoded-first-then-the-Header-parsed-from-the-resulting-stream",
                   internal(lambda c: trace_goal(eh(c)[0], new_subs(c)))),
                  ("stream-and-position-after-the-header", internal(lambda c: z3.And(stream_of(c, c.st).t == eh(c)[1], pos1(c) == eh(c)[2]))),
                  ("returns-only-if-the-end-header-grammar-accepts", internal(lambda c: z3.Not(eh(c)[3])))],
         raises=[Raises(BAD, sub=True, when=lambda c: eh(c)[3], label="a section refused / unexpected property id / short stream")],
         note="end header: [0x17 EncodedHeader] then 0x01 Header or 0x00 (empty archive); after an encoded header the id is read from the decoded stream"))
+    out.append(sub_view("_parse_end_header", note="call-site view for _parse_header; implied by the verified end-header contract above (refusal is a "
+                                                  "function of stream and position)"))
+
+    # ---- _parse_header: the 32-byte signature header of the archive file, then the end header parsed from its own stream
+    def ph_arch(c):
+        return c.entry.obj(c.args["self"].ref).data["_archive_file"].t
+
+    def ph_post(c):
+        hs, _bad = spec_start_header(ph_arch(c))
+        evs = new_subs(c)
+        d = c.st.obj(c.args["self"].ref).data
+        ho = d.get("_header_offset")
+        return z3.And(z3.BoolVal(len(evs) == 1 and evs[0][0] == "_parse_end_header"),
+                      *( [evs[0][1] == hs, evs[0][2] == 0] if len(evs) == 1 else []),
+                      ops.eq_term(ho, VInt(32)) if isinstance(ho, VInt) else z3.BoolVal(False))
+
+    out.append(FnContract(
+        target=f"{RD}._parse_header",
+        params=[("self", p_obj("SevenZipReader", {"_archive_file": p_ext("Stream7z"), "_stream": p_ext("Stream7z"), "_header_offset": p_const(0)}))],
+        requires=lambda c: SLEN(ph_arch(c)) >= 0, modifies=("self",),
+        ensures=[("end-header-parsed-from-a-stream-over-the-next-header-bytes-and-header-offset-32", internal(ph_post)),
+                 ("returns-only-if-signature-version-and-both-CRCs-match", internal(lambda c: z3.Not(spec_start_header(ph_arch(c))[1])))],
+        raises=[Raises(BAD, sub=True, when=lambda c: spec_start_header(ph_arch(c))[1],
+                       label="bad signature / version / CRC, truncated file, or the end header refused")],
+        note="SignatureHeader of 7zFormat.txt over any archive file; zlib.crc32 uninterpreted; pack positions are relative to byte 32"))
     return out
 
 
@@ -3991,6 +4076,7 @@ def contracts(reg):
     install_stream(reg)
     install_layout(reg)
     install_members(reg)
+    install_header(reg)
     out = []
     out.extend(byte_contracts())
     out.extend(layout_contracts(reg))
